@@ -160,6 +160,7 @@ type FnTrans struct {
 	ghostHit          map[*Clause]bool
 	siteOrd           map[ssa.Instruction]int
 	recordGets        map[string]bool
+	lastCallRes       ssa.Value
 	singleAssignCache map[*ssa.Alloc]*ssa.Store
 	collectUnlocked   *[]string // while evaluating a callee's requires: lock components it needs unlocked (it acquires them)
 	tpEvents          []tpEvent
